@@ -262,9 +262,20 @@ const FAMILIES: &[(&str, Family, usize, usize)] = &[
     ("tables", family_tables, 10, 50),
 ];
 
+/// families selected by VDET_FAMILIES (comma separated; empty = all) and the case-count multiplier
+fn selection() -> (Vec<String>, usize) {
+    let fams: Vec<String> = std::env::var("VDET_FAMILIES").unwrap_or_default().split(',').filter(|s| !s.is_empty()).map(|s| s.to_string()).collect();
+    let mult = std::env::var("VDET_MULT").ok().and_then(|s| s.parse().ok()).unwrap_or(1);
+    (fams, mult)
+}
+
 fn emit(seed: u64, tier: Tier, only: Option<(String, usize)>) {
+    let (fams, mult) = selection();
     for (name, f, q, t) in FAMILIES {
-        let count = if tier == Tier::Quick { *q } else { *t };
+        if !fams.is_empty() && !fams.iter().any(|x| x == name) {
+            continue;
+        }
+        let count = (if tier == Tier::Quick { *q } else { *t }) * mult;
         let vectors = gen_choice_vectors(seed, "C06", name, count, 400);
         for (i, v) in vectors.iter().enumerate() {
             if let Some((fam, idx)) = &only {
@@ -414,7 +425,7 @@ fn main() {
         emit(seed, tier, only);
         return;
     }
-    let prop = Prop {
+    let c06 = Prop {
         id: "C06",
         level: "exploration",
         rule: "case = one generated input of a family (proof: GenAir instance + options with LDE sizes 2^7..2^15 around the 1024 and 8192 thresholds, grinding 0 or 8; fft: sizes 256..2^14; batch: lengths around 1024, 8*1024, 16*1024; merkle: 512..2^13 leaves; matrix: 1..120 columns; tables: fragments of every length) x one build variant (async; concurrent with RAYON_NUM_THREADS in {1,2,3,4,5,7,8,12,16}, thorough: 1..16 twice). The same case list is regenerated in every build from the same proptest strategy and ChaCha seed. Oracle: digests of the outputs equal the serial build's: for proofs the context, commitments and OOD frame always, the whole proof whenever the nonce is equal, and every proof verifies; for the other families every output. Non-trivial = some parallel path is active (proof LDE >= 1024; all other families are sized to cross their thresholds); distinct = (case, variant).",
@@ -426,5 +437,26 @@ fn main() {
         required: vec!["family:proof", "family:fft", "family:batch", "family:merkle", "family:matrix", "family:tables", "proof_lde_ge_1024", "proof_lde_ge_8192", "nonce_equal"],
         required_thorough: vec![],
     };
-    main_with(vec![prop]);
+    // the thread clauses of C12, C14, C18 and C28 are decided by the same differential restricted to
+    // their family (stage of ./check C12 etc.; evidence merged into that property's evidence file)
+    let stage = |id: &'static str, _fams: &'static str, required: Vec<&'static str>, what: &'static str| -> Prop {
+        Prop {
+            id,
+            level: "exploration",
+            rule: what,
+            assumptions: vec!["thread schedules are explored by thread count, repeated runs and data sizes around the chunking thresholds (DESIGN.md section 7)"],
+            subs: vec![Sub::exhaustive("driver:differential", driver)],
+            required,
+            required_thorough: vec![],
+        }
+    };
+    let props = vec![
+        c06,
+        stage("C12", "fft", vec!["family:fft"], "thread clause of C12: generated FFT inputs (sizes 256..2^14 across the 1024-element concurrency threshold, odd and even log sizes, base and extension coefficients) evaluated / interpolated by the serial build and by the concurrent build under RAYON_NUM_THREADS in {1,2,3,4,5,7,8,12,16} (thorough: 1..16 twice): digests of every output must be equal. Non-trivial = every case (sizes chosen to reach the parallel path); distinct = (case, variant)."),
+        stage("C14", "batch", vec!["family:batch"], "thread clause of C14: batch_inversion, get_power_series(_with_offset), add_in_place, mul_acc on lengths around 1024, 8*1024, 16*1024 and lengths not divisible by the thread count, serial build vs concurrent build under RAYON_NUM_THREADS in {1,2,3,4,5,7,8,12,16}: digests of every output equal."),
+        stage("C18", "merkle", vec!["family:merkle"], "thread clause of C18: Merkle trees of 512..2^13 leaves built by the serial and the concurrent build under every thread count: identical roots, nodes and openings."),
+        stage("C28", "matrix,tables", vec!["family:matrix", "family:tables"], "thread clause of C28: LDE row matrices (1..120 columns), row commitments and trace-table fills built by the serial and the concurrent build under every thread count: identical digests."),
+    ];
+    main_with(props);
+
 }
